@@ -282,16 +282,20 @@ def run_property(pid, rules, meta, ctx, only=None, out=sys.stdout, seed=0, write
     for r in rules:
         if r.tier == 'thorough' and ctx.tier != 'thorough':
             continue
+        obs = []
+        errored = False
         try:
-            obs = list(r.func(ctx))
+            for o in r.func(ctx):
+                obs.append(o)
         except AnalysisError as e:
             errors.append('%s: %s' % (r.id, e))
-            continue
+            errored = True
         except Exception as e:  # noqa  -- a crash of the analyser is an analysis error, not a verdict
             import traceback
             tb = traceback.format_exc().strip().splitlines()
             errors.append('%s: analyser crashed: %s: %s | %s' % (r.id, type(e).__name__, e, ' / '.join(tb[-4:])))
-            continue
+            errored = True
+        # obligations decided before the rule had to stop still count (a failed one is still a violation)
         seen_keys = {}
         for o in obs:
             o.rule = r.id
@@ -301,7 +305,7 @@ def run_property(pid, rules, meta, ctx, only=None, out=sys.stdout, seed=0, write
                 o.key = '%s #%d' % (o.key, n)
         if only is not None:
             obs = [o for o in obs if o.key == only or ('%s %s' % (r.id, o.key)) == only]
-        elif len(obs) < r.floor:
+        elif len(obs) < r.floor and not errored:
             errors.append('%s: matched %d instances, floor is %d (anchor moved or rule no longer matches the code)'
                           % (r.id, len(obs), r.floor))
         per_rule.append({'rule': r.id, 'text': r.text, 'instances': len(obs),
